@@ -1,6 +1,7 @@
 package main
 
 import (
+	"strconv"
 	"runtime/debug"
 	"fmt"
 	"io"
@@ -88,11 +89,17 @@ func explore(ld *Loaded, spec HarnessSpec, tier string, seed int64, workers int,
 	if tier == "thorough" {
 		tmo = spec.TimeoutThorough
 	}
-	if tmo == 0 {
-		tmo = 150
-		if tier == "thorough" {
-			tmo = 1200
-		}
+	// The cap only protects against runs that do not end; reaching it is INCONCLUSIVE, never a pass. It is set several
+	// times above the measured time so that a loaded or smaller machine does not turn a sound check into a broken one.
+	floor := 900
+	if tier == "thorough" {
+		floor = 3600
+	}
+	if tmo < floor {
+		tmo = floor
+	}
+	if v, err := strconv.Atoi(os.Getenv("GOSX_TIMEOUT")); err == nil && v > 0 {
+		tmo = v
 	}
 	e := &Engine{prog: ld.prog, Outcomes: map[string]int{}, FuncsSeen: map[string]int{}, MaxSteps: 2000000, baseGlob: map[*ssa.Global]*value{}, bounds: res.Bounds, tier: tier}
 	e.intrinsics = makeIntrinsics()
